@@ -55,6 +55,10 @@ def render(case: t.Any) -> t.Any:
     return {'class': cg.ClsNode(case[0]).render(), 'values': {k: short(v, 50) for (k, v) in case[1].items()}}
 
 
+def _declining(ty: t.Any, args: t.Any, *, handlers: t.Any) -> t.Any:
+    return NotImplemented
+
+
 def check(case: t.Any, ctx: Ctx) -> None:
     import pane
     (spec, vals) = case
@@ -75,6 +79,13 @@ def check(case: t.Any, ctx: Ctx) -> None:
         r = nd.ref(data)
         (k, got) = outcome(lambda: Cls.from_data(data))
         ctx.evaluated()
+        # the same question through a second converter of the class (handlers that decline everything make a new one):
+        # the tables of names and layouts belong to the class, not to the first converter built for it
+        (k2, got2) = outcome(lambda: Cls.from_data(data, custom=[_declining]))
+        if k2 != k or (k == 'ok' and same(got2, got) is not None):
+            ctx.fail('layout-table', f"{klass}:second-converter", f"{ident}; {what}: data {short(data, 150)}: plain conversion {k} {short(got, 80)}, "
+                     f"with custom=[a handler that declines] {k2} {short(got2, 80)}")
+            return None
         if isinstance(r, tg.Unspec):
             ctx.exclude(r.why)
             return None
